@@ -225,6 +225,22 @@ def iter_nodes(tree: dict) -> Iterable[tuple[str, dict]]:
                 yield f"{f['d']}::{f['name']}", n
 
 
+def iter_nodes_typed(tree: dict) -> Iterable[tuple[str, dict, list]]:
+    """(where, node, declared dtype code of every input or 0) for every node at any depth; the annotations
+    visible in a scope are its own, then those of the enclosing scopes (as in the Lean `atV?`)."""
+    def walk(g, outer: dict, where: str):
+        vis = dict(outer)
+        vis.update({e[0]: e[1] for e in g.get("v", []) if e[1] is not None})
+        for n in g["n"]:
+            yield where, n, [int(vis.get(x) or 0) if x else 0 for x in n["i"]]
+            for b in n["b"]:
+                yield from walk(b, vis, where)
+    yield from walk(tree["g"], {}, "main")
+    for f in tree["f"]:
+        yield from walk({"i": f["i"], "t": f["t"], "n": f["n"], "o": f["o"], "v": f.get("v", [])}, {},
+                        f"{f['d']}::{f['name']}")
+
+
 def stats(tree: dict) -> dict:
     depth = 0
     scopes = 0
